@@ -495,17 +495,24 @@ def h_cli_out(params, vals, ctx):
         kw["outfile"] = OUTNAMES[i]
     if "implicit" in mode:
         kw["implicit_bin"] = True
-    r = CH.run_cli([src], {src: text}, parse_fn=parse_fn, **kw)
+    if "two-files" in mode:
+        # a second source file after the first: every default name is still derived from the FIRST file
+        second = "/w/lib/zlib.mac"
+        r = CH.run_cli([src, second], {src: text, second: ".byte 3\n"}, parse_fn=parse_fn, **kw)
+    else:
+        r = CH.run_cli([src], {src: text}, parse_fn=parse_fn, **kw)
     ctx.observe(r.exit, r.writes, r.crash)
     ctx.reach(r.crash is None and r.exit is None)
     if r.crash is not None or r.exit is not None:
         return False
-    img = [x % 256, 2]
+    img = [x % 256, 2] + ([3] if "two-files" in mode else [])
+    n_img = len(img)
 
     def is_image(blob, fmt):
         if fmt == "raw":
-            return len(blob) == 2 and blob[0] == img[0] and blob[1] == img[1]
-        return len(blob) == 6 and blob[0] + 256 * blob[1] == b and blob[2] + 256 * blob[3] == 2 and blob[4] == img[0] and blob[5] == img[1]
+            return len(blob) == n_img and all(blob[i] == img[i] for i in range(n_img))
+        return (len(blob) == 4 + n_img and blob[0] + 256 * blob[1] == b and blob[2] + 256 * blob[3] == n_img
+                and all(blob[4 + i] == img[i] for i in range(n_img)))
 
     expect = []      # (path or None for stdout, container)
     if "directive" in mode:
@@ -583,8 +590,8 @@ def obligations(tier, seed):
             obs.append(Ob(oid=f"name/{d}/{n}", harness=P + "h_name", params={"n": n, "dir": d}, vars={"S_1": "str"}, timeout=600,
                           pre="name = n x 'A' + one symbolic character (utf-8), code point windows around the length boundaries"))
     for d in ("make_wav", "make_turbo_wav"):
-        for nm, q in (("", '"'), ("", "'"), ("", "/"), (" ", '"'), ("A" * 16, '"'), ("tape", '"')):
-            obs.append(Ob(oid=f"name/fixed/{d}/{len(nm)}" + {34: "dq", 39: "sq", 47: "sl"}[ord(q)], harness=P + "h_name_fixed", params={"dir": d, "name": nm, "quote": q},
+        for nm, q in (("", '"'), ("", "'"), ("", "/"), (" ", '"'), ("A" * 16, '"'), ("tape", '"'), ("MUSIC.WAV", '"'), ("a.wav", '"'), (".wav", '"')):
+            obs.append(Ob(oid=f"name/fixed/{d}/{len(nm)}" + {34: "dq", 39: "sq", 47: "sl"}[ord(q)] + ("-wav-suffix" if nm.lower().endswith(".wav") else ""), harness=P + "h_name_fixed", params={"dir": d, "name": nm, "quote": q},
                           vars={"X": "int"}, timeout=300))
     for n in (3, 15):
         obs.append(Ob(oid=f"name/bk-charset/explicit/{n}", harness=P + "h_name", params={"n": n, "dir": "make_wav", "charset": "bk"}, vars={"S_1": "str"}, timeout=900))
@@ -614,7 +621,7 @@ def obligations(tier, seed):
         obs.append(Ob(oid=f"multi/{i}", harness=P + "h_multi", params={"directives": m}, vars={"X": "int", "B": "int"}, timeout=600))
         obs.append(Ob(oid=f"multi-lazy/{i}", harness=P + "h_multi", params={"directives": m, "lazy": True}, vars={"X": "int", "B": "int"}, timeout=600,
                       note="paths and names end in <SYMBOL> defined at the end of the source"))
-    for mode in ("o", "implicit", "o+implicit", "o+directive", "implicit+directive", "directive"):
+    for mode in ("o", "implicit", "o+implicit", "o+directive", "implicit+directive", "directive", "implicit+two-files", "o+two-files"):
         obs.append(Ob(oid=f"cli/{mode}", harness=P + "h_cli_out", params={"mode": mode}, vars={"I": "int", "J": "int", "X": "int", "B": "int"}, timeout=900, per_path=120,
                       pre="-o from a 15-name catalogue x source from a 7-name catalogue (indices realised), image byte and base symbolic"))
     payloads = [[0o1000, [0x10, 0x42], "test"], [0o40000, list(range(1, 40)), "LONGER-NAME-16ch"], [0, [], ""], [0o177776, [0xFF] * 300, "ff"]]
